@@ -107,6 +107,19 @@ def check_factorizations(w, rep, tier):
                           "factor is not unit triangular / D not diagonal", where=W)
                 rec = cm.matmul(cm.matmul(T, Dm), cm.transpose(T))
                 verdict(rep, "C10.factor", "%s n=%d: factor D factor^T reconstructs P" % (fn, n), rec, P, (), W, "factorization does not reconstruct its input")
+        # a structurally sparse input with fill-in: the arrowhead pattern [[a, b, c], [b, d, 0], [c, 0, e]] (and its mirror for
+        # UDU) has a structural zero where the factor has a non-zero entry; the factorisation must not read the pattern of P
+        # as the pattern of the factor (seeded C10-13 skipped structurally zero entries)
+        a_, b_, c_, d_, e_ = (w.sym(nm).s() for nm in ("pa", "pb", "pc", "pd", "pe"))
+        Z = Poly()
+        cells = [[a_, b_, c_], [b_, d_, Z], [c_, Z, e_]] if lower else [[e_, Z, c_], [Z, d_, b_], [c_, b_, a_]]
+        Psp = MatVal(3, 3, cells, "SX")
+        with with_maxdeg(24):
+            ok, res = guarded(w, rep, "C10.factor", "%s arrowhead n=3" % fn, lambda: w.callf(util[fn], Psp))
+            if ok:
+                T, Dm = res
+                verdict(rep, "C10.factor", "%s n=3 with a structural zero that fills in: factor D factor^T reconstructs P" % fn, cm.matmul(cm.matmul(T, Dm), cm.transpose(T)), Psp, (), W,
+                        "factorization of a structurally sparse matrix does not reconstruct its input (fill-in ignored)")
 
 
 def check_sqrt_correct(w, rep):
